@@ -22,6 +22,9 @@ var (
 	ErrUnexpectedServerChallange = errors.New("unexpected server challenge")
 	// ErrUnexpectedServerResponse is an error indicating that the server issued an unexpected response.
 	ErrUnexpectedServerResponse = errors.New("unexpected server response")
+	// ErrScramServerNotVerified is an error indicating that the server reported success of a running SCRAM
+	// exchange without having presented a valid server signature for it.
+	ErrScramServerNotVerified = errors.New("server reported success without a valid SCRAM server signature")
 	// ErrWrongHostname is an error indicating that the provided hostname does not match the expected value.
 	ErrWrongHostname = errors.New("wrong host name")
 )
